@@ -522,6 +522,11 @@ class PSBaseParser:
                 # it by tacking on whitespace, and delay raising PSEOF
                 # until next time around
                 self.charpos = self._parse1(b"\n", 0)
+                if self.charpos == 0 and not self._tokens:
+                    # the state handed the byte on to another state without
+                    # consuming it (the #xx escape that ends a name): that
+                    # state completes the token
+                    self.charpos = self._parse1(b"\n", 0)
                 self.eof = True
                 # Oh, so there wasn't actually a token there? OK.
                 if not self._tokens:
